@@ -259,6 +259,17 @@ def run(ctx):
         site = '%s:%s KmipEngine.%s' % (ENGINE, line, fn)
         ctx.check(not secrets, 'C20.R2', 'KmipEngine.%s|raise %s|%s' % (fn, exc, sorted(s[1] for s in secrets)), site, 'error message carries no secret',
                   'the message of %s (returned to the client as result_message) contains secret-bearing value(s): %s' % (exc, sorted(secrets)))
+    # ---------------- R5 engine fields (the ID placeholder above all) never hold a rendering of secret data
+    ctx.rule('C20.R5', 'no handler stores a secret-bearing value (a rendered managed object, an object value, a crypto result, a secret payload field) into an engine field such as the ID placeholder: those fields are echoed by later items in not-found messages and WARNING logs')
+    fstores = {}
+    for e in ai.events:
+        if e['kind'] == 'engine_field_store':
+            fstores.setdefault((e['fn'], e['line'], e['field']), set()).update(map(tuple, e['secrets']))
+    for (fn, line, field), secrets in sorted(fstores.items()):
+        site = '%s:%s KmipEngine.%s' % (ENGINE, line, fn)
+        ctx.check(not secrets, 'C20.R5', 'KmipEngine.%s|store self.%s|%s' % (fn, field, sorted(s[1] for s in secrets)), site, 'self.%s receives no secret-bearing value' % field,
+                  'self.%s is assigned a secret-bearing value (%s); it is later formatted into "Could not locate object" messages returned to the client and into WARNING log lines' % (field, sorted(secrets)))
+    ctx.count('engine_field_stores_in_handlers', len(fstores), 4)
     # every INFO+ logger call in engine.py outside the interpreted handlers (process_request, _process_batch, policy functions, ...) by the generic taint below
     interpreted_lines = set(l for (_, l, _) in logs)
     # ---------------- generic taint for the other modules (and the uninterpreted engine methods)
